@@ -7,6 +7,7 @@ import (
 	"fmt"
 	"os"
 	"runtime"
+	"strings"
 	"sync"
 	"sync/atomic"
 	"time"
@@ -169,7 +170,7 @@ func runOverloadDial(rec *Rec, sc *OverloadScenario, n int) {
 		s, st := cli.Dial(addr)
 		if !st.OK() || s == nil {
 			rec.Emit("DialRefused", "v", statStr(st))
-			if st.Code() == erpc.CodeDialFailed {
+			if st.Code() == erpc.CodeDialFailed && !strings.Contains(statStr(st), "connection overload") {
 				// the machine, not the plugin, refused (no local port, ...): nothing can be concluded from this run
 				rec.Emit("EnvFailure", "why", statStr(st))
 			}
